@@ -68,6 +68,13 @@ class World:
 
         self.fl = self.lib["FaultLog"](Tcs())
 
+        class Tcs2:  # another controller's fault log in the same process: it never hears anything
+            id = "01:999999"
+            _gwy = Gwy()
+
+        self.bystander = self.lib["FaultLog"](Tcs2())
+        self.poll_views = False
+
     def close(self) -> None:
         dispose_loop(self.loop)
 
@@ -93,6 +100,12 @@ class World:
         lib = self.lib
         self.reqs += 1
         k = self.reqs
+        if self.poll_views:  # an application reads the views while the read-through is in progress (before every reply)
+            for name in ("faultlog", "latest_event", "latest_fault", "active_faults"):
+                try:
+                    getattr(self.fl, name)
+                except Exception:  # noqa: BLE001
+                    pass
         if self.fail_at is not None and k == self.fail_at:
             raise lib["exc"].ProtocolSendFailed("harness: request lost 4 times")
         if self.new_at is not None and k == self.new_at:
@@ -116,6 +129,11 @@ class World:
             self.reported.add(self.n)
             self.fl.handle_msg(self.lib["Message"](self._pkt(" I", self._payload(self.n, 0))))
 
+    def do_clear(self, keep: int) -> None:
+        """The controller's log loses its oldest entries without a word (reset / replaced controller / restored from a backup): what the
+        library believed before may now be anything - the statement's 'whatever was believed before'."""
+        self.log = self.log[:keep]
+
     def do_rp(self, i: int) -> None:
         if i < len(self.log):
             self.reported.add(self.log[i])
@@ -123,15 +141,17 @@ class World:
         else:
             self.fl.handle_msg(self.lib["Message"](self._pkt("RP", NULL_PL)))
 
-    def do_read(self, limit: int, fail_at=None, new_at=None):
+    def do_read(self, limit: int, fail_at=None, new_at=None, poll=False):
         self.reqs = 0
         self.fail_at, self.new_at = fail_at, new_at
+        self.poll_views = poll
         try:
             return ("ok", self.loop.run_coro(self.fl.get_faultlog(start=0, limit=limit), horizon=10))
         except Exception as e:  # noqa: BLE001
             return ("exc", type(e).__name__, isinstance(e, self.lib["exc"].ProtocolError))
         finally:
             self.fail_at = self.new_at = None
+            self.poll_views = False
 
     def apply(self, ev):
         k = ev[0]
@@ -139,12 +159,16 @@ class World:
             self.do_new(ev[1])
         elif k == "rp":
             self.do_rp(ev[1])
+        elif k == "clear":
+            self.do_clear(ev[1])
         elif k == "read":
             return self.do_read(ev[1])
         elif k == "read_fail":
             return self.do_read(64, fail_at=ev[1])
         elif k == "read_new":
             return self.do_read(64, new_at=ev[1])
+        elif k == "read_polled":
+            return self.do_read(64, poll=True)
         return None
 
     def view(self) -> dict[int, str]:
@@ -164,6 +188,12 @@ def invariants(w: World) -> list[tuple[str, str]]:
             out.append((f"C19:view-raises:{name}:{type(e).__name__}", f"FaultLog.{name} raised {type(e).__name__}: {e}"))
     if out:
         return out
+    by = w.bystander
+    try:
+        if by.faultlog or by.latest_event is not None or by.latest_fault is not None or by.active_faults:
+            out.append(("C19:another-controller's-log-shows-entries", f"a fault log that never received a message shows faultlog={dict(by.faultlog)!r} latest_event={by.latest_event!r} active_faults={by.active_faults!r}"[:400]))
+    except Exception as e:  # noqa: BLE001
+        out.append((f"C19:view-raises:bystander:{type(e).__name__}", f"a fault log that never received a message: {e}"))
     v = w.view()
     pairs = sorted(v.items())
     tss = [t for _, t in pairs]
@@ -210,12 +240,17 @@ def invariants(w: World) -> list[tuple[str, str]]:
     return out
 
 
+ALPHABET_EXTRA = {"clear"}
+
+
 def enabled(w: World, maxlog: int) -> list:
     acts = []
     if len(w.log) < maxlog:
         acts += [("new", True), ("new", False)]
     acts += [("rp", i) for i in range(len(w.log) + 1)]
-    acts += [("read", 64), ("read", 2)]
+    acts += [("read", 64), ("read", 2), ("read_polled", 64)]
+    if w.log and "clear" in ALPHABET_EXTRA:
+        acts += [("clear", 0)] + ([("clear", 1)] if len(w.log) > 1 else [])
     if w.log:
         acts += [("read_fail", k) for k in range(1, min(len(w.log), 3) + 1)]
         if len(w.log) < maxlog:
@@ -233,6 +268,8 @@ def build(hist) -> World:
 def step_oracles(hist, ev, before_view, before_log, w: World, result) -> list[tuple[str, str]]:
     out = invariants(w)
     v = w.view()
+    if ev[0] == "read_polled":
+        ev = ("read", ev[1])  # (a read-through during which the application kept reading the views: same demands)
     if ev[0] == "read" and result and result[0] == "ok":
         want = {i: ts(n) for i, n in enumerate(w.log[: ev[1]])}
         got = {i: v.get(i) for i in want}
@@ -358,6 +395,9 @@ def replay(rep: dict):
     if rep.get("long"):
         return [(k, v["what"]) for k, v in long_history(None)[1].items()]
     hist = [tuple(e) for e in rep["hist"]]
+    # (the search builds thousands of worlds in one process; a fault log that keeps state outside its own instance is polluted by the
+    #  worlds before it - the replay therefore runs the history once to warm the process, then again and judges)
+    build(tuple(hist)).close()
     w = build(tuple(hist[:-1]))
     bv, bl = w.view(), list(w.log)
     res = w.apply(hist[-1])
